@@ -456,6 +456,32 @@ def rule_r6(repo, run):
             run.check(R, "ast.WrapFlags.accumulate:%s" % flag, ok,
                       "`%s`: a container's %s flag must be or-ed with the child's %s flag and nothing else (a child's "
                       "flag of another language switches this language on, or fails to)" % (am.seg(a), flag, flag), am.loc(a))
+    # the same written as a loop over the flag names: for name in (...): setattr(self, name, getattr(self, name) or getattr(w, name))
+    covered = set(a.targets[0].attr for a in ast.walk(wfl) if isinstance(a, ast.Assign) and isinstance(a.targets[0], ast.Attribute)
+                  and pyflow.is_name(a.targets[0].value, "self"))
+    for lp in ast.walk(wfl):
+        if isinstance(lp, ast.For) and isinstance(lp.target, ast.Name) and isinstance(lp.iter, (ast.Tuple, ast.List)):
+            v = lp.target.id
+            sets = [c for c in ast.walk(lp) if isinstance(c, ast.Call) and pyflow.is_name(c.func, "setattr") and len(c.args) == 3
+                    and pyflow.is_name(c.args[0], "self") and pyflow.is_name(c.args[1], v)]
+            for c in sets:
+                want = "getattr(self, %s) or getattr(%s, %s)" % (v, other, v)
+                names = [pyflow.const_str(e) for e in lp.iter.elts]
+                for nm in names:
+                    na += 1
+                    covered.add(nm)
+                    run.check(R, "ast.WrapFlags.accumulate:%s" % nm, ast.unparse(c.args[2]) == want,
+                              "`%s`: a container's flag must be or-ed with the child's flag of the same language and nothing else"
+                              % ast.unparse(c), am.loc(c))
+    init = am.func("WrapFlags.__init__")
+    defined = set(a.targets[0].attr for a in ast.walk(init) if isinstance(a, ast.Assign) and isinstance(a.targets[0], ast.Attribute)
+                  and pyflow.is_name(a.targets[0].value, "self"))
+    if len(defined) < 4:
+        raise AnalysisError("C15.R6: the flags of WrapFlags.__init__ were not found")
+    for flag in sorted(defined - covered):
+        run.check(R, "ast.WrapFlags.accumulate:%s" % flag, False,
+                  "WrapFlags has the flag `%s` and accumulate() does not promote it: a container whose own flag is off never learns "
+                  "that one of its members is wrapped for that language - no file is written for it, silently" % flag, am.loc(wfl))
     run.floor(R, "flags accumulated", na, 4)
     # a pass that restricts its clone to C/Fortran leaves the Python/Lua flags of the original alone
     gm = repo.module("generate")
@@ -646,6 +672,40 @@ def rule_r9(repo, run):
                   % ("getter" if k == 0 else "setter"), gm.loc(a))
 
 
+
+def rule_r10(repo, run):
+    R = run.rule("C15.R10", "the files of a scope are named alike: the header and the implementation template of one level differ "
+                            "only in the suffix field, and every per-class / per-namespace file name contains the scope path "
+                            "({file_scope}), so that two scopes never share a file (the later one would overwrite the earlier "
+                            "and --cfiles would name it twice)")
+    am = repo.module("ast")
+    fn = am.func("LibraryNode.default_options")
+    tmpl = {}
+    for key, val in pyflow.table_fields(fn):
+        if key.endswith("_template") and "filename" in key and pyflow.const_str(val) is not None:
+            tmpl[key] = (pyflow.const_str(val), val)
+    if len(tmpl) < 8:
+        raise AnalysisError("C15.R10: file name templates of LibraryNode.default_options not found (%d)" % len(tmpl))
+    n = 0
+    for key, (text, node) in sorted(tmpl.items()):
+        if "_header_" in key:
+            twin = key.replace("_header_", "_impl_")
+            if twin in tmpl:
+                n += 1
+                a = re.sub(r"\{\w*suffix\}", "{suffix}", text)
+                b = re.sub(r"\{\w*suffix\}", "{suffix}", tmpl[twin][0])
+                run.check(R, "ast.LibraryNode.default_options:%s<->%s" % (key, twin), a == b,
+                          "`%s` and `%s` name their files from different fields: header and implementation of one scope get "
+                          "different stems (or two scopes the same implementation file)" % (text, tmpl[twin][0]), am.loc(tmpl[twin][1]))
+        mo = re.search(r"filename_(class|namespace)_template$", key)
+        if mo:
+            n += 1
+            run.check(R, "ast.LibraryNode.default_options:%s:scope" % key, "{file_scope}" in text,
+                      "`%s` = `%s` does not contain {file_scope}: two %ss of the same name in different scopes are written to one "
+                      "file" % (key, text, mo.group(1)), am.loc(node))
+    run.floor(R, "file name templates compared", n, 6)
+
+
 def run(repo, run, tier):
     P = Program(repo)
     rule_r1(repo, run)
@@ -657,5 +717,6 @@ def run(repo, run, tier):
     rule_x(repo, run)
     rule_r8(repo, run)
     rule_r9(repo, run)
+    rule_r10(repo, run)
     run.assumptions.append("the property's domain requests Fortran only together with C, so a test of the "
                            "Fortran flag is accepted as guard for switching the C flag on")
